@@ -16,6 +16,7 @@ mod c15;
 mod c08;
 mod c12;
 mod c07;
+mod c07_fresh;
 mod c10;
 mod c05;
 mod c14;
